@@ -108,7 +108,7 @@ CHECKS = {
     "C16": dict(corpora=["boxed", "ctor", "refslice"],
                 rule="new_boxed on all partitions of content of total length 0..MaxTotal into <= 3 slices x 3 header kinds (each also cloned); "
                      "every heap-allocated tag kind x content lengths 0..MaxContent constructed, cloned and dropped under a tracking allocator"),
-    "C09": dict(corpora=["hwalk", "hdst", "hfields", "hgetters", "hload", "hmut", "hperm"],
+    "C09": dict(laws=[("APA_Iter", "Init", "IndInv", 1), ("APA_Iter", "IndInit", "IndInv", 1)], corpora=["hwalk", "hdst", "hfields", "hgetters", "hload", "hmut", "hperm"],
                 rule="all lazily chosen header-tag sequences (4 type/flag pairs, sizes 0..remaining+9), every header-tag kind at every "
                      "declared size 0..40, conformant tags; every call checked for crash/hang and extents inside the declared header"),
     "C10": dict(technique="TLA+ specification + TLC model checking + TLC trace validation of replayed cases; checksum law: Apalache on the specification "
@@ -144,6 +144,8 @@ CHECKS = {
                      "non-trivial = every case (each has a distinct specified outcome class or size); structural regions with total sizes "
                      "around every power of two from 128 bytes to 1 MiB (2 MiB thorough), end tag right / wrong"),
     "C03": dict(thorough_extra=["mut"], corpora=["walk", "proto", "load"],
+                # unbounded (regions and sizes up to 2^32): the cursor machine's inductive invariant, base case and induction step
+                laws=[("APA_Iter", "Init", "IndInv", 1), ("APA_Iter", "IndInit", "IndInv", 1)],
                 rule="cases = all lazily chosen header sequences (type in {0,3,99}, size 0..remaining+9) of regions up to MaxT; "
                      "each drained by a tag iterator, a mid-walk clone and the module iterator; histories: all interleavings of length Depth of "
                      "next/clone on two tag iterators, a clone slot, a module iterator and its clone over 8 representative regions"),
